@@ -161,8 +161,11 @@ pub fn judge(kind: MsgKind, fields: &[Field]) -> Judgement {
             if host.len() > 1 {
                 note("repeated Host");
             }
-            for a in auth.iter().chain(host.iter()) {
-                if has_ctl_or_sp(a) {
+            // which of several Host lines is "the" authority is not stated (noted above): a later Host line is then
+            // judged as a field value only (HTAB is a legal value byte), not as an authority
+            let sole_host = host.len() == 1;
+            for (a, judged) in auth.iter().map(|a| (a, true)).chain(host.iter().map(|h| (h, sole_host))) {
+                if judged && has_ctl_or_sp(a) {
                     return MustReject("authority contains a space or control character");
                 }
                 if !simple_authority(a) {
